@@ -33,6 +33,7 @@ import (
 	"google.golang.org/grpc/credentials"
 	_ "google.golang.org/grpc/encoding/gzip" // register gzip
 	"google.golang.org/grpc/keepalive"
+	"google.golang.org/grpc/peer"
 	"google.golang.org/grpc/reflection"
 )
 
@@ -281,6 +282,20 @@ func NewGRpcServer(c queue.Client, api client.QueueProtocolAPI) *Grpcserver {
 		return handler(ctx, req)
 	}
 	opts = append(opts, grpc.UnaryInterceptor(interceptor))
+	// streaming methods (e.g. SubEvent) pass the same address and function gate as unary ones;
+	// clients on the loopback interface keep their unrestricted access to streams
+	streamInterceptor := func(srv interface{}, ss grpc.ServerStream, info *grpc.StreamServerInfo, handler grpc.StreamHandler) error {
+		if p, ok := peer.FromContext(ss.Context()); ok {
+			if host, _, err := net.SplitHostPort(p.Addr.String()); err == nil && net.ParseIP(host).IsLoopback() {
+				return handler(srv, ss)
+			}
+		}
+		if err := auth(ss.Context(), &grpc.UnaryServerInfo{FullMethod: info.FullMethod}); err != nil {
+			return err
+		}
+		return handler(srv, ss)
+	}
+	opts = append(opts, grpc.StreamInterceptor(streamInterceptor))
 	if rpcCfg.EnableTLS {
 		creds, err := credentials.NewServerTLSFromFile(rpcCfg.CertFile, rpcCfg.KeyFile)
 		if err != nil {
